@@ -20,7 +20,7 @@ from vlib import c13_corrupt as C
 from vlib import c13_oracles as O
 
 PROPS = ["Props/C13", "Props/C13_Xyz", "Props/C13_Pdffit", "Props/C13_Discus", "Props/C13_Xcfg", "Props/C13_Pdb", "Props/C13_Cif",
-         "Props/C13_Examples"]
+         "Props/C13_Examples"] + ["Props/C13_Tie_" + f.capitalize() for f in ("xyz", "rawxyz", "pdffit", "discus", "pdb", "xcfg", "cif")]
 TARGETS = [p + ".vo" for p in PROPS]
 MODEL_FORMATS = ["xyz", "rawxyz", "pdffit", "discus", "xcfg", "pdb"]
 
@@ -365,14 +365,27 @@ def gen_tasks(ctx, docs, quick):
         for k in range(ns):
             tasks.append([(fmt, "soup", "token:%d" % k), fmt, C.token_soup(fmt, rng)])
             tasks.append([(fmt, "soup", "records:%d" % k), fmt, C.structured_soup(fmt, rng, L)])
+    # micro documents (every text of <= 2 lines over a small alphabet) for every parser, and operation-loop faults of a
+    # CIF with a non-tabulated group: always complete, they are cheap and reach the corners sampling misses
+    micro = C.micro_documents()
+    for fmt in C.FORMATS:
+        for nm, t in micro:
+            tasks.append([(fmt, "micro", nm), fmt, t])
+    tasks.append([("cif", "tiny-customsg.cif", "valid"), "cif", C.CUSTOM_SYMOP_CIF])
+    for d, t in C.symop_faults():
+        tasks.append([("cif", "tiny-customsg.cif", d), "cif", t])
+    for d, t in C.all_single_faults("cif", C.CUSTOM_SYMOP_CIF):
+        tasks.append([("cif", "tiny-customsg.cif", d), "cif", t])
     out = []
     for i, (tid, fmt, text) in enumerate(tasks):
         entries = ["parse"]
+        if (tid[1] == "micro" and fmt == "xyz") or tid[2].startswith("symop_"):
+            entries.append("auto:parse")
         if not quick or i % 4 == 1:
             entries.append("parseLines")
         if i % 4 == 2 or (not quick and i % 2 == 0):
             entries.append("parseFile")
-        if i % (8 if quick else 16) == 3:
+        if i % (8 if quick else 16) == 3 and "auto:parse" not in entries:
             entries.append("auto:parse")
         try:
             text.encode("utf-8")
